@@ -983,13 +983,31 @@ def _known_causes(R, m, mx, st, dcf, dcs, dxf, dxs, cf):
     if off(D.mjDSBL_SPRING) != off(D.mjDSBL_DAMPER) and allzero(dxf.qfrc_passive) and allzero(dxf.qfrc_gravcomp) \
             and not (allzero(dcf.qfrc_passive) and allzero(dcf.qfrc_gravcomp)):
         actgc = np.array(m.jnt_actgravcomp)[np.array(m.dof_jntid)].astype(float) if m.nv else np.zeros(0)
-        comp = np.array(dcf.qfrc_passive) + np.array(dcf.qfrc_gravcomp) * actgc
+        comp = np.array(dcf.qfrc_passive, float)
+        # the zeroed qfrc_gravcomp is also missing from qfrc_actuator of actuatorgravcomp joints (added BEFORE the joint
+        # actuatorfrcrange clamp): confirmed by the C engine with BOTH flags disabled (all passive forces and gravcomp off, which
+        # is what MJX computed), whose qfrc_actuator must equal MJX's; the difference is then part of the compensation
+        act_gc_confirmed = False
+        if np.any(actgc != 0) and np.any(np.array(dcf.qfrc_gravcomp) * actgc != 0):
+            import copy
+            from .. import mjxrepo
+            mb = copy.copy(m)
+            mb.opt.disableflags = int(m.opt.disableflags) | int(D.mjDSBL_SPRING) | int(D.mjDSBL_DAMPER)
+            db = mj.MjData(mb)
+            mjxrepo.set_state_dict(mb, db, st)
+            mj.mj_forward(mb, db)
+            if _relerr(np.asarray(dxf.qfrc_actuator), db.qfrc_actuator) <= 1e-6 if R.x64 else 2e-3:
+                act_gc_confirmed = True
+                comp = comp + (np.array(dcf.qfrc_actuator, float) - np.asarray(dxf.qfrc_actuator, float))
         out.append({
             "sig": "passive-forces-skipped-when-only-one-of-spring-damper-disabled",
-            "scope": _scope(fields=["qfrc_passive", "qfrc_gravcomp", "qfrc_smooth", "qacc_smooth", "qacc", "qfrc_constraint"],
-                            step=["qpos", "qvel"], sensors=ACC_BODY, efc=any_efc_force),
-            # root: MJX's early return leaves exact zeros in both arrays
-            "root": lambda name, det: name in ("qfrc_passive", "qfrc_gravcomp") and allzero(det["mjx"]),
+            "scope": _scope(fields=["qfrc_passive", "qfrc_gravcomp", "qfrc_smooth", "qacc_smooth", "qacc", "qfrc_constraint"]
+                            + (["qfrc_actuator"] if act_gc_confirmed else []),
+                            step=["qpos", "qvel"], sensors=ACC_BODY + ([S.mjSENS_JOINTACTFRC] if act_gc_confirmed else []),
+                            efc=any_efc_force),
+            # root: MJX's early return leaves exact zeros in both arrays (qfrc_actuator: see act_gc_confirmed above)
+            "root": lambda name, det: (name in ("qfrc_passive", "qfrc_gravcomp") and allzero(det["mjx"]))
+            or (act_gc_confirmed and (name == "qfrc_actuator" or det.get("stype") == int(S.mjSENS_JOINTACTFRC))),
             # downstream: give MJX the missing generalized force as qfrc_applied; everything must then agree with C
             "spec": {"mjx_data": lambda dx, comp=comp: dx.replace(qfrc_applied=dx.qfrc_applied + jp.array(comp, dtype=dx.qfrc_applied.dtype))},
         })
